@@ -55,6 +55,12 @@ Step(e) ==
                  \cup (IF st.focusOut = st.focusIn THEN {} ELSE {Dev("C05.lost", "focus_event", <<st.focusIn, st.focusOut>>)})>>
       [] e.ev = "FiniHang" -> <<st, {Dev("C06.hang", "Fini", "after delivery run")}>>
       [] e.ev = "ChanStillOpen" -> <<st, {Dev("C05.channel", "not_closed_on_fini", 0)}>>
+      \* ChanQuit: events forwarded in order, then quit closed while nothing is pending: the channel is closed without
+      \* waiting for another event, and an event posted afterwards is there for PollEvent
+      [] e.ev = "ChanQuit" ->
+           <<st, (IF e.forwarded = e.posted THEN {} ELSE {Dev("C05.channel", "forwarding_order", <<e.posted, e.forwarded>>)})
+                 \cup (IF e.closed THEN {} ELSE {Dev("C05.channel", "not_closed_on_quit", e.after_quit)})
+                 \cup (IF ~e.post_ok \/ e.polled THEN {} ELSE {Dev("C05.lost", "event_taken_after_quit", e.after_quit)})>>
       [] e.ev = "Shutdown" ->
            LET state == [kind |-> e.kind, eq |-> e.eq, chunks |-> e.chunks, readerr |-> e.readerr, resize |-> e.resize] IN
            <<st,
